@@ -435,7 +435,7 @@ func (w *world) sendSeq(sess *sessM, slot, seq uint32, class string, t *tmpl, ca
 				if r := sl.refused; r != nil && r.cache == cache && bytes.Equal(encodeArgs(t.ops), encodeArgs(r.args.Argarray[1:])) {
 					c.refusedBefore = true
 				}
-				sl.refused = c
+				c.afterRefused, sl.refused = sl.refused, c
 			} else {
 				c.mode = "exec"
 				c.afterRefused, sl.refused = sl.refused, nil
@@ -848,7 +848,8 @@ func (w *world) finishExec(c *call) {
 	}
 	w.label("exec:" + t.kind)
 	if c.afterRefused != nil {
-		// The sequence ID that an oversized request did not consume.
+		// (finishExec: c was executed.) The sequence ID that an oversized
+		// request did not consume.
 		w.label("slot_reused_after_too_many_ops")
 		if c.everParked {
 			w.label("slot_reused_after_too_many_ops_by_request_that_parked")
